@@ -610,6 +610,18 @@ def r6(ctx):
             c = ifs[0]["inner"][0]
             while c.get("kind") in ("ImplicitCastExpr", "ParenExpr") and c.get("inner"):
                 c = c["inner"][0]
+            if c.get("kind") == "CallExpr":
+                # a file-local predicate: look at what it returns
+                hn = clangq.callee_name(c)
+                try:
+                    hobjs = clangq.dump(ctx.prog, "src/polyphase/switchflipcalculator.cpp", hn) if hn else []
+                except AnalysisError:
+                    hobjs = []
+                hrets = [r_ for o_ in hobjs for f_ in clangq.find(o_, "FunctionDecl") if f_.get("name") == hn for r_ in clangq.find(f_, "ReturnStmt")]
+                if len(hrets) == 1 and hrets[0].get("inner"):
+                    c = hrets[0]["inner"][0]
+                    while c.get("kind") in ("ImplicitCastExpr", "ParenExpr") and c.get("inner"):
+                        c = c["inner"][0]
             if c.get("kind") == "BinaryOperator" and c.get("opcode") == "!=":
                 ok, why = True, "getNumFlips counts one per haplotype with `a != b`"
     ctx.ob("SwitchFlipCalculator::getNumFlips", "one-flip-per-differing-haplotype", ok, where, why)
